@@ -8,6 +8,13 @@ Import ListNotations.
 From Mos Require Import model.Format Gen.FmtRules model.FormatTokens.
 Open Scope nat_scope.
 
+(* a is a subsequence of b: b with some elements removed *)
+Inductive subseq {A : Type} : list A -> list A -> Prop :=
+| subseq_nil : subseq [] []
+| subseq_take : forall x a b, subseq a b -> subseq (x :: a) (x :: b)
+| subseq_skip : forall x a b, subseq a b -> subseq a (x :: b).
+
+
 (* ---------------------------------------------------------------- comments of an AST, in source order *)
 Definition trivium_comments (t : trivia) : list text :=
   match t with
